@@ -51,6 +51,9 @@
 (assert (forall ((a Bytes) (p Bytes) (b Bytes)) (! (=> (and (= (blen p) 1) (not (contains a p))) (and (= (splitHead (bcat a (bcat p b)) p) a) (= (splitTail (bcat a (bcat p b)) p) b) (contains (bcat a (bcat p b)) p))) :pattern ((bcat a (bcat p b))))))
 (assert (forall ((s Bytes) (p Bytes)) (! (=> (contains s p) (<= (blen p) (blen s))) :pattern ((contains s p)))))
 (assert (forall ((a Bytes) (b Bytes) (p Bytes)) (! (=> (contains a p) (contains (bcat a b) p)) :pattern ((contains (bcat a b) p)))))
+(assert (forall ((a Bytes) (b Bytes) (p Bytes)) (! (=> (contains b p) (contains (bcat a b) p)) :pattern ((contains (bcat a b) p)))))
+; splitting at a one-byte separator skips a prefix that does not contain it
+(assert (forall ((x Bytes) (y Bytes) (p Bytes)) (! (=> (and (= (blen p) 1) (not (contains x p)) (contains y p)) (and (= (splitHead (bcat x y) p) (bcat x (splitHead y p))) (= (splitTail (bcat x y) p) (splitTail y p)))) :pattern ((splitHead (bcat x y) p)) :pattern ((splitTail (bcat x y) p)))))
 ; ---- paths: joining with a valid component is injective and never yields the parent
 (assert (forall ((a Bytes) (b Bytes) (c Bytes) (d Bytes)) (! (=> (and (= (pjoin a b) (pjoin c d)) (validName b) (validName d)) (and (= a c) (= b d))) :pattern ((pjoin a b) (pjoin c d)))))
 (assert (forall ((a Bytes) (b Bytes)) (! (=> (validName b) (not (= (pjoin a b) a))) :pattern ((pjoin a b)))))
@@ -85,7 +88,8 @@
 (assert (forall ((a Bytes) (b Bytes) (c Int)) (! (= (noByte (bcat a b) c) (and (noByte a c) (noByte b c))) :pattern ((noByte (bcat a b) c)))))
 (assert (forall ((c Int)) (! (noByte bempty c) :pattern ((noByte bempty c)))))
 (assert (forall ((n Int) (w Int) (c Int)) (! (=> (and (not (= c 45)) (or (< c 48) (> c 57))) (noByte (fmtd n w) c)) :pattern ((noByte (fmtd n w) c)))))
-(assert (forall ((s Bytes) (c Int)) (! (= (contains s (byte1 c)) (not (noByte s c))) :pattern ((contains s (byte1 c))))))
+(assert (forall ((s Bytes) (c Int)) (! (=> (not (contains s (byte1 c))) (noByte s c)) :pattern ((contains s (byte1 c))))))
+(assert (forall ((s Bytes) (c Int)) (! (=> (contains s (byte1 c)) (not (noByte s c))) :pattern ((contains s (byte1 c))))))
 (assert (forall ((h Bytes) (c Int)) (! (=> (or (< c 48) (and (> c 57) (< c 97)) (> c 102)) (noByte (hex h) c)) :pattern ((noByte (hex h) c)))))
 ; ---- peeling a (right-nested) concatenation
 ; first occurrence of c from the start
@@ -128,3 +132,17 @@
 ; the absolute form of (the parent of) an absolute path is that path itself
 (assert (forall ((p Bytes)) (! (and (<= (blen (pdir p)) (blen p)) (=> (not (= (pdir p) p)) (< (blen (pdir p)) (blen p)))) :pattern ((pdir p)))))
 (assert (forall ((p Bytes)) (! (= (absPath (pdir (absPath p))) (pdir (absPath p))) :pattern ((pdir (absPath p))))))
+; scanStep s: always true; a marker term the line-scanner model leaves for every text it splits a line off, so that
+; recursive definitions over the lines of a text (one unfolding per line) are instantiated there and nowhere else
+; @needs scanStep
+(assert (forall ((s Bytes)) (! (scanStep s) :pattern ((scanStep s)))))
+; strings.ReplaceAll / strings.TrimSpace introduce no byte that neither the text nor the replacement has; trimming shortens
+; @needs replaceAll
+(assert (forall ((s Bytes) (a Bytes) (b Bytes) (c Int)) (! (=> (and (noByte s c) (noByte b c)) (noByte (replaceAll s a b) c)) :pattern ((noByte (replaceAll s a b) c)))))
+; @needs trimSpace
+(assert (forall ((s Bytes) (c Int)) (! (=> (noByte s c) (noByte (trimSpace s) c)) :pattern ((noByte (trimSpace s) c)))))
+; @needs trimSpace
+(assert (forall ((s Bytes)) (! (<= (blen (trimSpace s)) (blen s)) :pattern ((trimSpace s)))))
+; the two parts of a split have no byte the whole does not have
+(assert (forall ((s Bytes) (p Bytes) (c Int)) (! (=> (and (noByte s c) (contains s p)) (noByte (splitTail s p) c)) :pattern ((noByte (splitTail s p) c)))))
+(assert (forall ((s Bytes) (p Bytes) (c Int)) (! (=> (noByte s c) (noByte (splitHead s p) c)) :pattern ((noByte (splitHead s p) c)))))
